@@ -169,6 +169,35 @@ Proof.
     assert (F : find_cand _ l a None = Some m) by (apply find_cand_iff; auto). congruence.
 Qed.
 
+
+(* the module a lookup returns is one of the registered modules (no invariant needed) *)
+Lemma check_end_in (prev : option module) a m (l : list module) :
+  (forall p, prev = Some p -> In p l) -> check_end mdata prev a = Some m -> In m l.
+Proof.
+  unfold check_end. destruct prev as [p|]; [|discriminate].
+  destruct (mend p <=? a); [discriminate|]. intros H E. inversion E; subst. apply H. reflexivity.
+Qed.
+
+Lemma find_cand_in (l : list module) : forall a prev m (l0 : list module),
+  incl l l0 -> (forall p, prev = Some p -> In p l0) -> find_cand mdata l a prev = Some m -> In m l0.
+Proof.
+  induction l as [|y t IH]; intros a prev m l0 Hi Hp; cbn [find_cand].
+  - apply check_end_in. exact Hp.
+  - destruct (mstart y =? a).
+    + intros E; inversion E; subst. apply Hi. now left.
+    + destruct (a <? mstart y); [apply check_end_in; exact Hp|].
+      apply IH; [intros z Hz; apply Hi; now right | intros p E; inversion E; subst; apply Hi; now left].
+Qed.
+
+Lemma find_module_in (l : list module) a m rel : find_module mdata l a = Ok (Some (m, rel)) -> In m l.
+Proof.
+  unfold find_module. destruct (find_cand _ l a None) as [c|] eqn:E; [|discriminate].
+  destruct (a <? base_avma c); [discriminate|].
+  destruct (sub64p S_find_sub a (base_avma c)); cbn; try discriminate.
+  destruct (a0 <? W32); [|discriminate]. intros H; inversion H; subst.
+  eapply find_cand_in; [apply incl_refl | | exact E]. intros p Hp; discriminate.
+Qed.
+
 (* ---------- max_known_code_address ---------- *)
 Lemma mods_max_nil : mods_max mdata [] = 0. Proof. reflexivity. Qed.
 
